@@ -835,6 +835,10 @@ func (c *Chain) ApplyBlock(ctx context.Context, b *Built) *Mismatch {
 		return &Mismatch{Kind: "harness", What: fmt.Sprintf("reference rejects the builder's block: %v", refErr)}
 	}
 	if zErr != nil {
+		// localise: block processing already ran, a wrong post-state shows up as a state-root error
+		if m := c.Compare(fmt.Sprintf("after block at slot %d (%s), which zrnt rejected with %q", blk.Slot, refspec.ForkNames[blk.Fork], zErr.Error())); m != nil && m.Kind == "state-mismatch" {
+			return m
+		}
 		return &Mismatch{Kind: "valid-block-rejected", What: fmt.Sprintf("zrnt rejects a block the specification accepts (slot %d, %s): %v", blk.Slot, refspec.ForkNames[blk.Fork], zErr)}
 	}
 	return c.Compare(fmt.Sprintf("after block at slot %d (%s)", blk.Slot, refspec.ForkNames[blk.Fork]))
